@@ -23,8 +23,8 @@ H = {'errno': mk('errno', files.scen_errno, ('fails', 'ok')),
 def build_jobs(tier, seed):
     J = common.Job
     return [J(H['errno'], {}), J(H['last-bytes'], {}),
-            J(H['checksum'], dict(reads=8 if tier == 'quick' else 16)),
-            J(H['checksum'], dict(reads=4 if tier == 'quick' else 8,
+            J(H['checksum'], dict(reads=8 if tier == 'quick' else 32)),
+            J(H['checksum'], dict(reads=4 if tier == 'quick' else 16,
                                   chunk_choices=[1, 7, 4096, 65536])),
             J(H['tempfile'], {})]
 
@@ -43,7 +43,7 @@ def describe(tier):
         'concatenation of the hasher updates is structurally the whole '
         'content; the file stub offers read() and readinto() (mutable '
         'buffer model: prefix replaced, stale tail kept)' %
-        (8 if tier == 'quick' else 16),
+        (8 if tier == 'quick' else 32),
         'write_to_tempfile': 'call protocol against recording stubs (with / '
         'without directory, write failing or not)',
         'outside': 'the real filesystem, mkstemp uniqueness, hashlib '
